@@ -225,7 +225,7 @@ def validate_traces(module, traces, tag, workers=4, timeout=900, cfg=None, env=N
         raise ToolError("TLC timed out validating %s traces with %s" % (len(traces), module))
     if "No error has been found" not in r["out"]:
         raise ToolError("TLC failed on %s:\n%s" % (module, r["out"][-3000:]))
-    acc = set(re.findall(r'<<"ACCEPT", "([^"]+)">>', r["out"]))
+    acc = set(re.findall(r'<<"ACCEPT", "([^"]+)"(?:, [^>]*)?>>', r["out"]))
     ids = [t["id"] for t in traces]
     rej = [i for i in ids if i not in acc]
     return {"accepted": acc, "rejected": rej, "states": r["states"], "distinct": r["distinct"],
